@@ -189,6 +189,20 @@ def crash_tag(err):
     m = re.search(r"WARNING: ThreadSanitizer: ([\w -]+?) \(pid", err)
     if m:
         kind = "tsan." + m.group(1).strip().replace(" ", "-")
+        if kind == "tsan.data-race":
+            # both racing accesses made by harness code itself (first frame with a source path, interceptors skipped): a defect of
+            # the harness, not of the library - reported as a note, never as a violation
+            first = err[m.start():]
+            end = first.find("SUMMARY: ThreadSanitizer")
+            blk = first[:end if end > 0 else len(first)]
+            tops = []
+            for am in re.finditer(r"^\s*(?:Previous )?(?:atomic )?(?:[Rr]ead|[Ww]rite) of size \d+ at .*?$((?:\n\s+#\d+ .*)+)", blk, re.M):
+                top = None
+                for fm in re.finditer(r"#\d+ \S+ (/\S+?):\d+", am.group(1)):
+                    top = fm.group(1); break
+                tops.append(top)
+            if len(tops) >= 2 and all(t and "/harness/" in t for t in tops[:2]):
+                return "tsanh.harness-internal-race"
         g = re.search(r"Location is global '(\w+)'", err)
         fr = None
         for fm in re.finditer(r"#\d+ (\w+) (\S+)", err):
